@@ -26,7 +26,7 @@ def seeded(pid, fname="results.json", prefix="m"):
         else: out.append("%s%s ✘" % (prefix, k))
     return ", ".join(out)
 
-rows = ["| id | theorems (Props/Cxx.v) | quick: cases / wall | findings (known_findings.json) | blind changes round 1 (✔ = reported with a failing input) | blind changes round 2 | round 3 | round 4 | harmless refactors (ok = exit 0) |", "|---|---|---|---|---|---|---|---|---|"]
+rows = ["| id | theorems (Props/Cxx.v) | quick: cases / wall | findings (known_findings.json) | blind changes round 1 (✔ = reported with a failing input) | blind changes round 2 | round 3 | round 4 | round 5 | harmless refactors (ok = exit 0) |", "|---|---|---|---|---|---|---|---|---|---|"]
 for p in props:
     i = p["id"]
     ev = {}
@@ -36,7 +36,7 @@ for p in props:
     cov = ev.get("coverage", {})
     fs = [f for f in findings if f["property"] == i]
     ftxt = "; ".join("%s %s%s" % (f.get("id", "?"), f["status"], (" (" + str(f.get("commit") or f.get("fixed_by") or "") + ")") if f["status"] == "fixed" and (f.get("commit") or f.get("fixed_by")) else "") for f in fs) or "none"
-    rows.append("| %s | %d | %s / %s s (%s tier) | %s | %s | %s | %s | %s | %s |" % (i, theorems(i), cov.get("evaluations", "?"), ev.get("wall_s", "?"), ev.get("tier", "?"), ftxt, seeded(i), seeded(i, "results_round2.json", "n"), seeded(i, "results_round3.json", "q"), seeded(i, "results_round4.json", "s"), seeded(i, "refactors.json", "r")))
+    rows.append("| %s | %d | %s / %s s (%s tier) | %s | %s | %s | %s | %s | %s | %s |" % (i, theorems(i), cov.get("evaluations", "?"), ev.get("wall_s", "?"), ev.get("tier", "?"), ftxt, seeded(i), seeded(i, "results_round2.json", "n"), seeded(i, "results_round3.json", "q"), seeded(i, "results_round4.json", "s"), seeded(i, "results_round5.json", "t") or "—", seeded(i, "refactors.json", "r")))
 table = "\n".join(rows)
 
 app = []
